@@ -47,6 +47,7 @@ class Client:
         self.finished = False
         self.width = None
         self.bad_handshake = False
+        self.srv = 1
 
     @property
     def st(self):
@@ -109,14 +110,14 @@ class CtlSim:
         return hashlib.sha1(repr(self.events).encode()).hexdigest()[:16]
 
     # ------------------------------------------------------------------ pool and workers
-    def make_pool(self):
+    def make_pool(self, cfg=None):
         from asyncio_taskpool.pool import TaskPool, SimpleTaskPool
         from .shim import shim_class
-        cfg = self.cfg
+        cfg = cfg or self.cfg
         base = SimpleTaskPool if cfg.get("cls", "T").startswith("S") else TaskPool
         cls = base if cfg.get("stock") else shim_class(base)
         if cfg.get("cls", "T").endswith("x"):
-            cls = extended_class(cls)
+            cls = extended_class(cls, cfg.get("variant", 0))
         kw = {}
         if cfg.get("size") is not None:
             kw["pool_size"] = cfg["size"]
@@ -126,7 +127,10 @@ class CtlSim:
                        cancel_callback=ctlworkers.on_cancel, **kw)
         else:
             pool = cls(**kw)
-        self.pool_cls = cls
+        if cfg is self.cfg:
+            self.pool_cls = cls
+        else:
+            self.pool2_cls = cls
         return pool
 
     async def worker_body(self, fname, args, kwargs):
@@ -173,17 +177,32 @@ class CtlSim:
                                             "apply-job-group-0")))
 
     # ------------------------------------------------------------------ server
-    def address(self):
+    def address(self, srv=1):
         if self.cfg.get("transport", "tcp") == "unix":
-            return ("unix", os.path.join(self.tmpdir, "ctl.sock"))
-        return ("tcp", "127.0.0.1", 9999)
+            return ("unix", os.path.join(self.tmpdir, "ctl.sock" if srv == 1 else "ctl2.sock"))
+        return ("tcp", "127.0.0.1", 9999 if srv == 1 else 9998)
 
-    def make_server(self):
+    def make_server(self, srv=1):
         from asyncio_taskpool.control.server import TCPControlServer, UnixControlServer
-        addr = self.address()
+        addr = self.address(srv)
+        pool = self.pool if srv == 1 else self.pool2
         if addr[0] == "unix":
-            return UnixControlServer(self.pool, socket_path=addr[1])
-        return TCPControlServer(self.pool, host=addr[1], port=addr[2])
+            return UnixControlServer(pool, socket_path=addr[1])
+        return TCPControlServer(pool, host=addr[1], port=addr[2])
+
+    def _op_start2(self, st):
+        """A second control server in the same process, for another pool (of another class)."""
+        if getattr(self, "server2", None) is not None:
+            return
+        cfg2 = dict(self.cfg)
+        cfg2.update(st.get("cfg", {}))
+        cfg2["name"] = "q"
+        self.pool2 = self.make_pool(cfg2)
+        self.server2 = self.make_server(2)
+        self.serve_driver2 = self.loop.create_task(self._drive_serve2())
+
+    async def _drive_serve2(self):
+        self.serving_task2 = await self.server2.serve_forever()
 
     async def _drive_serve(self):
         h0 = self.loop.handles_run
@@ -207,7 +226,7 @@ class CtlSim:
 
     # ------------------------------------------------------------------ clients
     async def _raw_client(self, c):
-        addr = self.address()
+        addr = self.address(c.srv)
         try:
             if addr[0] == "unix":
                 c.reader, c.writer = await asyncio.open_unix_connection(addr[1])
@@ -311,6 +330,7 @@ class CtlSim:
         if lab in self.clients:
             return
         c = Client(lab, "raw")
+        c.srv = st.get("srv", 1)
         c.pending = []
         c.width = st.get("w", 80)
         self.clients[lab] = c
